@@ -514,16 +514,13 @@ func (s *Sim) doAction(a *Action) {
 			o.stopped = true
 			o.byCancel = a.Kind == ActCancelCtx
 		}
-		if err != nil && err != leader.ErrAlreadyStopped {
+		// A stop call that returned an error, or a Stop that gave up waiting after its 5s, leaves goroutines
+		// of the run behind. Restarting that very object used to reuse its WaitGroup under the abandoned
+		// Wait (runtime panic / race report: the former known finding C09/C20, repaired by giving every run a
+		// WaitGroup of its own); such restarts are ordinary plan steps now. CleanRestartsOnly brings the old
+		// exclusion back (the object is then restarted as a new election).
+		if s.plan.CleanRestartsOnly && ((err != nil && err != leader.ErrAlreadyStopped) || (a.Kind == ActStop && s.now()-r.CallT >= 5*time.Second)) {
 			o.stopFailed = true
-		}
-		if a.Kind == ActStop && s.now()-r.CallT >= 5*time.Second {
-			// the stop call gave up waiting for the election's goroutines (its 5s / caller's time-out):
-			// restarting this object would reuse its WaitGroup while the previous Wait is still pending
-			// (known finding C09/C20); real callers create a new election instead, and so does the harness
-			if !s.plan.AllowUncleanRestart {
-				o.stopFailed = true
-			}
 		}
 		s.mu.Unlock()
 		s.apiEnd(o, r, err == nil, err)
